@@ -13,6 +13,9 @@ TIERS = {
     "quick": dict(num=40, depth=60, MaxHist=10, backends={'"numpy"', '"pytorch"', '"jax"'}, procs=8),
     "thorough": dict(num=400, depth=120, MaxHist=18, backends={'"numpy"', '"pytorch"', '"jax"', '"tensorflow"'}, procs=12),
 }
+SUITE = {"quick": ["tests/test_interpolate.py", "tests/test_events.py", "tests/test_backends.py"],
+         "thorough": ["tests/test_interpolate.py", "tests/test_events.py", "tests/test_backends.py", "tests/test_public_api.py", "tests/test_pdf.py",
+                      "tests/test_tensor.py", "tests/test_infer.py", "tests/test_constraints.py", "tests/test_paramviewer.py"]}
 KINDS = {'"model_a"', '"model_b"', '"interp0"', '"interp1"', '"interp2"', '"interp4"', '"interp4p"', '"viewer"'}
 
 
@@ -60,6 +63,21 @@ def run(prop, tier):
         tr = traces[tid - 1]
         v.violation(f"recorded execution is not a behaviour of Backend.tla: record {idx} ({tr['events'][idx]['ev'] if idx < len(tr['events']) else 'end'}) unexplained: {reason}",
                     {"trace_prefix": tr["events"][max(0, idx - 6): idx + 1], "init": tr["init"], "index": idx}, ["trace", tr["events"][idx]["ev"] if idx < len(tr["events"]) else "end"])
+    # Binding B, source (ii): backend/event records of the repository's own tests (one trace per test)
+    import suite_traces
+    files = SUITE[tier]
+    recs, summary = suite_traces.run_tests(files, "c11suite")
+    tests = suite_traces.split(recs)
+    bt = suite_traces.backend_traces(tests)
+    for i, tr in enumerate(bt):
+        tr["id"] = i + 1
+    if not bt:
+        raise Machinery(f"no backend records from the repository tests {files} ({summary})")
+    sacc, srej = tracecheck.check("TraceBackend", bt, invariants=["StaleFree"], tag="c11suite")
+    for tid, idx, reason in srej:
+        tr = bt[tid - 1]
+        v.violation(f"repository test {tr['label']}: recorded execution is not a behaviour of Backend.tla at record {idx}: {reason}",
+                    {"trace_prefix": tr["events"][max(0, idx - 6): idx + 1], "init": tr["init"], "index": idx}, ["trace", "suite"])
     for ln in lines[:2]:
         h = json.loads(ln)["hist"]
         v.sample([{k: s[k] for k in s if k != "post"} for s in h])
@@ -67,7 +85,9 @@ def run(prop, tier):
         states=exh.distinct, transitions=exh.generated, depth=exh.depth, tlc_wall_s=round(exh.wall + sim.wall, 1),
         tlc_invariants=INV + ["DefaultUntouchedUnlessAsked"], simulated_states=sim.generated,
         traces_validated_against_impl=total, behaviours_replayed=total, steps_replayed=steps, object_evaluations=evals,
-        set_backend_calls=switches, fits_compared=fits, hook_traces_validated=len(accepted), hook_trace_events=nev, hook_traces_rejected=len(rejected), evaluations=total, distinct_nontrivial=nontriv,
+        set_backend_calls=switches, fits_compared=fits, hook_traces_validated=len(accepted), hook_trace_events=nev, hook_traces_rejected=len(rejected) + len(srej),
+        repository_tests_traced=len(tests), repository_test_files=files, repository_backend_traces_validated=len(sacc),
+        repository_backend_events=sum(len(t_["events"]) for t_ in bt), evaluations=total, distinct_nontrivial=nontriv,
         rule=("exhaustive TLC over all interleavings of object creation, deletion and three-step set_backend (swap, fire, setup) for 4 backends x "
               "2 precisions x 2 optimisers x default flag with <= 3 objects; TLC -simulate behaviours (distinct, seeded) of MaxHist library-level "
               "steps over 8 object kinds (two models, five interpolators, a tensor viewer) are replayed in a long-lived process: after each step "
